@@ -89,8 +89,13 @@ def parse(text):
             cur = {"label": m.group(1), "stem": m.group(2),
                    "n": None if m.group(3) is None else int(m.group(3)),
                    "cons": [], "example": None}
-            doc.shapes[m.group(1)] = cur
-            doc.order.append(m.group(1))
+            key = m.group(1)
+            k = 1
+            while key in doc.shapes:      # two classes with the same local name give two shapes with one label
+                k += 1
+                key = "%s\x00%d" % (m.group(1), k)
+            doc.shapes[key] = cur
+            doc.order.append(key)
             continue
         if s.startswith("//"):
             if last is not None:
@@ -150,9 +155,38 @@ def parse(text):
     # expand
     out = {}
     order = []
+    dups = {}
     for lab in doc.order:
         sh = doc.shapes[lab]
-        L = expand(lab, doc.prefixes)
+        L = expand(sh["label"], doc.prefixes)
+        dups.setdefault(L, []).append(lab)
+    rename = {}
+    for L, labs in dups.items():
+        if len(labs) > 1:
+            # canonical, order-independent names for same-label shapes: sorted by their own content
+            # tell them apart by the class they describe: the value set of their most frequent '[...]' constraint
+            def discriminator(x):
+                best = None
+                for c in doc.shapes[x]["cons"]:
+                    vs = [expand(v, doc.prefixes) for v in c["values"] if v.startswith("[")]
+                    if vs and not c["inv"]:
+                        n = c["fig"][0] if c["fig"] and c["fig"][0] is not None else -1
+                        cand = (n, tuple(sorted(vs)))
+                        if best is None or cand[0] > best[0] or (cand[0] == best[0] and cand[1] < best[1]):
+                            best = cand
+                return best[1] if best else None
+            disc = {x: discriminator(x) for x in labs}
+            if None not in disc.values() and len(set(disc.values())) == len(labs):
+                for x in labs:
+                    rename[x] = "%s~%s" % (L, "+".join(disc[x]))
+            else:
+                labs_sorted = sorted(labs, key=lambda x: repr((doc.shapes[x]["n"], sorted(repr((c["inv"], c["pred"], c["values"], c["card"], c["fig"]))
+                                                                                         for c in doc.shapes[x]["cons"]))))
+                for i, x in enumerate(labs_sorted):
+                    rename[x] = "%s~%d" % (L, i + 1)
+    for lab in doc.order:
+        sh = doc.shapes[lab]
+        L = rename.get(lab) or expand(sh["label"], doc.prefixes)
         sh["xlabel"] = L
         for c in sh["cons"]:
             c["xpred"] = expand(c["pred"], doc.prefixes)
